@@ -751,7 +751,9 @@ pub(crate) fn generate_pipeline(
             ir::ShaderStage::Vertex => {
                 // Vertex shaders use the same types as the pixel shader
                 // We reuse the vertex output struct for pixel input
-                assert!(pixel_input_members.is_empty());
+                if !pixel_input_members.is_empty() {
+                    return Err(GenerateError::UnexpectedMeshOutput);
+                }
                 pixel_in = return_type.map(|ty| (ty, None));
             }
             ir::ShaderStage::Mesh => {
@@ -760,7 +762,9 @@ pub(crate) fn generate_pipeline(
                 pixel_in = Some((STAGE_INPUT_NAME_PIXEL, Some(pixel_input_members)));
             }
             _ => {
-                assert!(pixel_input_members.is_empty());
+                if !pixel_input_members.is_empty() {
+                    return Err(GenerateError::UnexpectedMeshOutput);
+                }
             }
         }
     }
